@@ -27,7 +27,8 @@ def world():
 
 
 def _task(args):
-    target, variant, tier = args
+    target, variant, tier = args[:3]
+    cid = args[3] if len(args) > 3 else None
     from pyvc.verify import verify_function, verify_lemma
     from pyvc.core import Budget
     w = world()
@@ -40,7 +41,7 @@ def _task(args):
         r = verify_lemma(w, modname, node, kw, b)
         con, variant = None, None
     else:
-        con = w.reg.contracts[target]
+        con = w.reg.by_cid(cid) if cid else w.reg.contracts[target]
         r = verify_function(w, con, variant, b)
     obls = []
     for o in r.obligations:
@@ -52,7 +53,7 @@ def _task(args):
             d['smt2'] = getattr(o, 'smt2', None)
             d['path'] = list(o.path or [])
         obls.append(d)
-    return {'target': target, 'variant': variant, 'obligations': obls, 'paths': r.paths, 'normal_paths': r.normal_paths,
+    return {'target': target, 'variant': variant, 'contract': cid, 'obligations': obls, 'paths': r.paths, 'normal_paths': r.normal_paths,
             'exc_paths': r.exc_paths, 'error': r.error, 'seconds': r.seconds, 'solver_seconds': r.solver_seconds,
             'queries': r.queries, 'inlined': sorted(r.inlined), 'by_contract': sorted(r.by_contract),
             'externals': sorted(r.externals), 'source': r.source, 'vacuity': r.vacuity,
@@ -116,18 +117,22 @@ def main():
         roots = callgraph.handler_roots(funcs)
         reach = callgraph.reachable(edges, roots)
         c16 = {'roots': sorted(roots), 'reachable': len(reach),
-               'under_contract': sorted(t for t, c in w.reg.contracts.items() if t in reach and not c.assumed),
-               'assumed': sorted(t for t, c in w.reg.contracts.items() if t in reach and c.assumed),
+               'under_contract': sorted({c.target for c in w.reg.all_contracts() if c.target in reach and not c.assumed}),
+               'assumed': sorted({c.target for c in w.reg.all_contracts() if c.target in reach and c.assumed
+                                  and all(x.assumed for x in w.reg.facets[c.target])}),
                'unverified_remainder': sorted(q for q in reach if q not in w.reg.contracts)}
-    for target, con in sorted(w.reg.contracts.items()):
+    for con in sorted(w.reg.all_contracts(), key=lambda c: (c.target, c.cid)):
+        target = con.target
+        if con.assumed:
+            continue
         if c16 is not None:
             if target in c16['under_contract']:
-                for v in (con.variants or [None]):
-                    tasks.append((target, v, tier))
+                for v in con.all_variants():
+                    tasks.append((target, v, tier, con.cid))
             continue
-        if a.prop in con.props and not con.assumed:
+        if a.prop in con.props:
             for v in con.all_variants():
-                tasks.append((target, v, tier))
+                tasks.append((target, v, tier, con.cid))
     # lemmas (closed formulas over the contracts' vocabulary) registered for the property
     for modname, node, kw in w.reg.lemmas:
         if a.prop in kw.get('props', []):
@@ -201,7 +206,7 @@ def main():
         b = backends.setdefault(o['backend'], {'count': 0, 'seconds': 0.0})
         b['count'] += 1
         b['seconds'] = round(b['seconds'] + o['seconds'], 3)
-    functions = [{'function': r['target'], 'variant': r['variant'], **(r['source'] or {}), 'paths': r['paths'],
+    functions = [{'function': r['target'], 'variant': r['variant'], 'contract': r.get('contract'), **(r['source'] or {}), 'paths': r['paths'],
                   'normal_paths': r['normal_paths'], 'exceptional_paths': r['exc_paths'],
                   'obligations': len(r['obligations']),
                   'discharged': sum(1 for o in r['obligations'] if o['verdict'] == 'discharged'),
@@ -210,7 +215,7 @@ def main():
                   'callees_inlined(real code)': r['inlined'], 'callees_by_contract': r['by_contract'],
                   'externals_assumed': r['externals']} for r in results]
     externals = sorted({e for r in results for e in r['externals']})
-    assumed_contracts = sorted({c for r in results for c in r['by_contract'] if w.reg.contracts[c].assumed})
+    assumed_contracts = sorted({x.cid + ' for ' + c for r in results for c in r['by_contract'] for x in w.reg.facets.get(c, []) if x.assumed})
     samples = [{k: o[k] for k in ('name', 'kind', 'verdict', 'backend', 'seconds', 'function') if k in o}
                for o in all_obls[:6]] + [{k: o[k] for k in ('name', 'kind', 'verdict', 'backend', 'seconds', 'function', 'detail', 'model') if k in o}
                                          for o in (refuted + undecided)[:10]]
